@@ -251,6 +251,112 @@ theorem unchanged_reports_nothing (gs : List GConfig) (hu : ∀ g ∈ gs, lastNa
     obtain ⟨hm, hl⟩ := ((diff_exact gs gs).2.1 g).mp hg
     rw [hu g hm] at hl; cases hl
 
+/-! ### a file that cannot be parsed: whatever the reason, the answer is CANT_REREAD
+
+  `cant_reread_leaves_state` above is about a parse that ended with a ValueError.  Every check of options.py raises
+  ValueError itself; the class of a failing `s % expansions` is CPython's (KeyError / ValueError / TypeError) and is
+  turned into a ValueError by the except clauses of `expand()` -- the GENERATED `expandHandlers`; which classes
+  reloadConfig answers with CANT_REREAD is the GENERATED `reloadCatches`. -/
+
+/-- **format_failure_is_value_error.**  Whatever `s % expansions` raises -- an unknown name, a malformed conversion, a
+    numeric conversion without a mapping key or of a string (`command=/bin/date +%d`, `%(program_name)d`) -- what leaves
+    `expand()` is a ValueError. -/
+theorem format_failure_is_value_error : ∀ c ∈ formatRaises, expandRaises c = "ValueError" := by decide
+
+/-- reloadConfig answers a ValueError, and its subclasses (the UnicodeDecodeError of a file that is not UTF-8), with
+    CANT_REREAD and leaves the state as it was -/
+theorem value_error_is_cant_reread (s : State) :
+    rereadFailure s "ValueError" = (.fault .cantReread, s) ∧ rereadFailure s "UnicodeDecodeError" = (.fault .cantReread, s) := by
+  constructor <;> simp [rereadFailure, reloadCatches, isSubclass, pyBases, List.find?, List.lookup]
+
+/-- **unparsable_answered_cant_reread.**  For every way the parse of the model can fail (every error text `e`, in
+    particular every failure of a %-expression whatever its class in CPython): reloadConfig answers CANT_REREAD and
+    leaves every active group and the configuration last read as they were. -/
+theorem unparsable_answered_cant_reread (s : State) (e : String) :
+    rereadUnparsable s e = (.fault .cantReread, s) := by
+  have hk : expandRaises "KeyError" = "ValueError" := format_failure_is_value_error _ (by decide)
+  have hv : expandRaises "ValueError" = "ValueError" := format_failure_is_value_error _ (by decide)
+  have ht : expandRaises "TypeError" = "ValueError" := format_failure_is_value_error _ (by decide)
+  have hf : formatClass e = some "KeyError" ∨ formatClass e = some "TypeError" ∨ formatClass e = some "ValueError" ∨ formatClass e = none := by
+    unfold formatClass
+    split
+    · exact Or.inl rfl
+    · split
+      · exact Or.inr (Or.inl rfl)
+      · split
+        · exact Or.inr (Or.inr (Or.inl rfl))
+        · exact Or.inr (Or.inr (Or.inr rfl))
+  have hc : parseFailureClass e = "ValueError" := by
+    unfold parseFailureClass
+    rcases hf with h | h | h | h <;> simp [h, hk, hv, ht]
+  unfold rereadUnparsable
+  rw [hc]
+  exact (value_error_is_cant_reread s).1
+
+/-- the two answers agree: the classed view of an unparsable file is `cant_reread_leaves_state` -/
+theorem unparsable_is_cant_reread_leaves_state (s : State) (e : String) :
+    (rereadUnparsable s e).2 = (reloadConfig s (.error e)).2 ∧ (reloadConfig s (.error e)).1 = .error .cantReread := by
+  rw [unparsable_answered_cant_reread]; exact ⟨rfl, rfl⟩
+
+-- the failures in question do occur: the unescaped strftime percent and the numeric conversion of a string are TypeErrors
+example : Sv.Config.expand [("program_name", .s "stamp")] "/bin/date +%d" = .error "expand:unkeyed or unsupported format" := by decide +kernel
+example : Sv.Config.expand [("program_name", .s "stamp")] "%(program_name)d" = .error "expand:%d of a string" := by decide +kernel
+example : formatClass "expand:unkeyed or unsupported format" = some "TypeError" ∧ formatClass "expand:%d of a string" = some "TypeError"
+    ∧ formatClass "expand:name cannot be expanded" = some "KeyError" ∧ formatClass "expand:incomplete format" = some "ValueError"
+    ∧ formatClass "integer:invalid literal" = none := by decide +kernel
+/-- why `expand()` must catch every class: with `except ValueError` in place of `except Exception` the TypeError of
+    `+%d` leaves `expand()` as it is, and reloadConfig (which catches ValueError only) lets it escape -/
+theorem narrowed_handler_lets_type_error_escape :
+    throughHandlers [("KeyError", "ValueError"), ("ValueError", "ValueError")] "TypeError" = "TypeError" ∧
+    (rereadFailure { file := [], active := [] } "TypeError").1 = .escapes "TypeError" := by decide +kernel
+
+/-! ### the working directory
+
+  supervisord reads its file for the first time in the directory it was launched in and, once daemonize() has changed to
+  [supervisord] directory=, every later time from there.  `parseAt cwd` is the parse with every working-directory
+  dependent function the code applies to a child log file name (GENERATED `childLogfileChain`). -/
+
+/-- the functions that build group and process configurations call nothing that depends on the working directory
+    (the fcgi socket path is normalised only after it has been checked to be absolute) -/
+theorem config_builders_cwd_free :
+    cwdCalls.all (fun fc => fc.2.isEmpty || (fc.1 == "parse_fcgi_socket" && fcgiSocketPathMustBeAbsolute)) = true := by decide
+
+theorem lfAt_id (cwd : String) (l : LogFile) : lfAt cwd l = l := by
+  cases l <;> simp [lfAt, childLogfileChain, cwdSensitive]
+
+theorem gconfigAt_id (cwd : String) (g : GConfig) : gconfigAt cwd g = g := by
+  have hp : pconfigAt cwd = id := by funext p; simp [pconfigAt, lfAt_id]
+  simp [gconfigAt, hp]
+
+/-- **parse_independent_of_cwd.**  The parsed value of every option is a function of the file (text, environment,
+    %(here)s) only: the same file read in two working directories gives the same outcome. -/
+theorem parse_independent_of_cwd (cwd₁ cwd₂ : String) (ini : Ini) : parseAt cwd₁ ini = parseAt cwd₂ ini := by
+  have h : ∀ cwd, parseAt cwd ini = (readConfig ini).map (·.groups) := by
+    intro cwd
+    have hg : (fun r : Result => r.groups.map (gconfigAt cwd)) = fun r => r.groups := by
+      have hid : gconfigAt cwd = id := by funext g; exact gconfigAt_id cwd g
+      funext r; simp [hid]
+    simp [parseAt, hg]
+  rw [h cwd₁, h cwd₂]
+
+/-- **unchanged_file_reports_nothing_after_chdir.**  The daemon read the file in `launch`, changed its directory to `run`
+    and reads the unchanged file again: nothing is reported (group names unique, as the group table requires). -/
+theorem unchanged_file_reports_nothing_after_chdir (launch run : String) (ini : Ini) (old new : List GConfig)
+    (h1 : parseAt launch ini = .ok old) (h2 : parseAt run ini = .ok new) (hu : ∀ g ∈ old, lastNamed old g.name = some g) :
+    (diffToActive new old).changed = [] ∧ (diffToActive new old).added = [] ∧ (diffToActive new old).removed = [] := by
+  rw [parse_independent_of_cwd run launch, h1] at h2
+  injection h2 with h2
+  subst h2
+  exact unchanged_reports_nothing old hu
+
+-- a relative child log file name stays what the file says, wherever the file is read
+example : lfAt "/srv/run" (.path "web.log") = .path "web.log" := by decide +kernel
+/-- why a child log file name must not go through normalize_path: made absolute at parse time, the same text gives two
+    names in two working directories, and config equality compares them -/
+theorem normalized_logfile_depends_on_cwd :
+    absIn "/launch" "web.log" ≠ absIn "/srv/run" "web.log" ∧ absIn "/launch" "/var/log/web.log" = absIn "/srv/run" "/var/log/web.log" ∧
+    lfEq (.path (absIn "/launch" "web.log")) (.path (absIn "/srv/run" "web.log")) = false := by decide +kernel
+
 /-! ### supervisorctl update -/
 
 def callGroup : Call → String
